@@ -33,7 +33,7 @@ func (p *propC16) Assumptions() []string {
 	}
 }
 func (p *propC16) ProbeNames() []string {
-	return []string{"unknown message with fields", "unlisted field in known message", "failure mid-record", "failure at record boundary", "grammar error injected", "logger lines > 0", "corpus stream", "lists checked on success", "lists checked on failure", "lists checked per file of a chain"}
+	return []string{"unknown message with fields", "unlisted field in known message", "failure mid-record", "failure at record boundary", "grammar error injected", "logger lines > 0", "corpus stream", "lists checked on success", "lists checked on failure", "lists checked per file of a chain", "option values re-used across calls"}
 }
 
 var optSets = [][]string{
@@ -139,8 +139,9 @@ func (p *propC16) Gen(idx int) *Scenario {
 			sc.Params["bad_at"] = itoa(pos)
 		}
 	}
+	shared := r.Bool() // the caller builds its option values once and re-uses them for every call
 	for i, o := range optSets {
-		sc.Tasks = append(sc.Tasks, Task{ID: i, Call: "Decode", In: "m0", Opts: o, Read: plan})
+		sc.Tasks = append(sc.Tasks, Task{ID: i, Call: "Decode", In: "m0", Opts: o, SharedOpts: shared, Read: plan})
 	}
 	return sc
 }
@@ -324,6 +325,8 @@ func (p *propC16) Check(sc *Scenario, st *Stats) []Violation {
 		st.Nontrivial++
 	}
 	// execute the 8 option sets
+	resetSharedOpts()
+	st.ProbeIf(sc.Tasks[0].SharedOpts, "option values re-used across calls")
 	var res []*Result
 	for i := range sc.Tasks {
 		r := runTask(&sc.Tasks[i], media, nil, nil)
